@@ -3,7 +3,7 @@
    list of integers.  Both the extracted OCaml driver and the coqc/vm_compute
    cross-check call exactly this function.  Byte strings inside [args] are
    length-prefixed. *)
-From Cam Require Import Outcome Bytes Chunks Cmd Ack Event.
+From Cam Require Import Outcome Bytes Chunks Cmd Ack Event Stream Payload.
 
 Definition BAD_ARGS : list Z := [-99].
 
@@ -33,8 +33,49 @@ Definition d_c08 (code : Z) (args : list Z) : list Z :=
   | _, _ => BAD_ARGS
   end.
 
+Definition show_payload (p : payload) : list Z :=
+  p_id p :: p_type p :: p_valid p :: p_timestamp p ::
+  (match p_info p with
+   | None => [0]
+   | Some ii => [1; ii_width ii; ii_height ii; ii_xoff ii; ii_yoff ii; ii_pf ii; ii_image_size ii]
+   end) ++
+  (match view_image p with Ok None => [0] | Ok (Some d) => [1; zlen d] | Err e => [3; e] | Panic => [2] end) ++
+  (match view_payload p with Ok d => [1; zlen d] | Err e => [3; e] | Panic => [2] end).
+
+(* leader bytes, trailer bytes, payload buffer, received count *)
+Definition run_build (lb tb buf : list Z) (rs : Z) : list Z :=
+  match parse_leader lb, parse_trailer tb with
+  | Ok l, Ok t => show_outcome show_payload (build l t buf rs)
+  | _, _ => [1; 21]
+  end.
+
+Fixpoint split_lp (fuel : nat) (args : list Z) : list (list Z) :=
+  match fuel, args with
+  | S f, n :: r => firstn (Z.to_nat n) r :: split_lp f (skipn (Z.to_nat n) r)
+  | _, _ => []
+  end.
+
+Definition d_c11 (code : Z) (args : list Z) : list Z :=
+  match code, args with
+  | 1101, n :: bs => if zlen bs =? n then run_leader bs else BAD_ARGS
+  | 1102, n :: bs => if zlen bs =? n then run_trailer bs else BAD_ARGS
+  | 1103, [c] => run_pixel c
+  | 1105, [lo; hi] =>
+    (* what a sweep of the codes lo <= c < hi must report: number of accepted codes, number that
+       do not map back (none), first such (-1), checksum *)
+    let hits := filter (fun cp => (lo <=? fst cp) && (fst cp <? hi)) code_to_pf in
+    [0; zlen hits; 0; -1; fold_left (fun acc cp => acc + fst cp * 31 + snd cp) hits 0]
+  | 1104, rs :: rest =>
+    match split_lp 3 rest with
+    | [lb; tb; buf] => run_build lb tb buf rs
+    | _ => BAD_ARGS
+    end
+  | _, _ => BAD_ARGS
+  end.
+
 Definition dispatch (code : Z) (args : list Z) : list Z :=
   if (1000 <? code) && (code <? 1100) then d_c10 code args
   else if (900 <? code) && (code <? 1000) then d_c09 code args
   else if (800 <? code) && (code <? 900) then d_c08 code args
+  else if (1100 <? code) && (code <? 1200) then d_c11 code args
   else BAD_ARGS.
